@@ -297,6 +297,41 @@ def chain(ctx: Ctx, M):
             return
 
 
+def mixed_precision_jac(ctx: Ctx):
+    """Jac over inputs of two floating dtypes, interleaved, all of the same shape: every key receives ITS OWN Jacobian (rows
+    `coef[r][i] * W_i`), whatever the chunk size — the order of the inputs is the order of the columns, not the order of
+    any grouping"""
+    rng = ctx.rng
+    k = rng.choice([3, 4])
+    shape = rng.choice([(2,), (3,), (2, 2)])
+    dts = [rng.choice([torch.float32, torch.float64]) for _ in range(k)]
+    if len(set(dts)) == 1:
+        j = rng.randrange(k)
+        dts[j] = torch.float64 if dts[j] == torch.float32 else torch.float32
+    m = rng.choice([1, 2, 3])
+    leaves = [torch.tensor([float(rng.randint(-3, 3)) for _ in range(numel(shape))], dtype=dts[i]).reshape(shape).requires_grad_()
+              for i in range(k)]
+    W = [torch.tensor([float(rng.randint(-4, 4)) for _ in range(numel(shape))], dtype=torch.float64).reshape(shape) for _ in range(k)]
+    coef = [[rng.randint(-3, 3) for _ in range(k)] for _ in range(m)]
+    y = torch.stack([sum(coef[r][i] * (leaves[i].double() * W[i]).sum() for i in range(k)) for r in range(m)])
+    chunk = rng.choice([None, 1, 2, m + 2])
+    real = run_real(lambda: Jac(outputs=[y], inputs=leaves, chunk_size=chunk, retain_graph=True)(Jacobians({y: torch.eye(m, dtype=torch.float64)})))
+    rp = {"transform": "Jac", "scenario": "inputs of two dtypes", "dtypes": [str(d) for d in dts], "shape": list(shape), "rows": m,
+          "chunk": chunk, "coef": coef, "W": [w.flatten().tolist() for w in W]}
+    ctx.case(("mixed-jac", tuple(str(d) for d in dts), shape, m, chunk, str(coef)), nontrivial=True)
+    ctx.count("transform", "Jac(inputs of two dtypes)")
+    if real[0] != "ok":
+        ctx.violation(f"Jac over inputs of dtypes {[str(d) for d in dts]} raised {real[1]}", rp)
+        return
+    for i in range(k):
+        got = real[1].get(leaves[i])
+        exp = torch.stack([coef[r][i] * W[i] for r in range(m)])
+        if got is None or tuple(got.shape) != tuple(exp.shape) or not torch.equal(got.double(), exp):
+            ctx.violation(f"Jac over inputs of dtypes {[str(d) for d in dts]} (chunk {chunk}): the Jacobian under key {i} is "
+                          f"{None if got is None else got.flatten().tolist()}, expected {exp.flatten().tolist()}", rp)
+            return
+
+
 def main(ctx: Ctx):
     ctx.lean_gate()
     n = 250 if ctx.tier == "quick" else 25000
@@ -304,6 +339,8 @@ def main(ctx: Ctx):
         one_program(ctx, no_casts(ctx.rng, random_program))
         if i % 3 == 0:
             chain(ctx, no_casts(ctx.rng, random_mtl))
+        if i % 5 == 0:
+            mixed_precision_jac(ctx)
     return ctx.finish(
         rule="Init, Diagonalize, Select, Grad, Jac, Aggregate, Stack of torchjd.autojac._transform driven directly on "
              "random P-int programs with random key sets (several keys, equal-sized keys, 0-d..4-d, unreachable "
